@@ -199,7 +199,9 @@ Proof.
     assert (Hc2 : 2 ^ c <> 0) by (apply N.pow_nonzero; discriminate).
     rewrite (N.mul_comm (2 ^ c)). rewrite N.mod_mul_r by assumption. lia. }
   pose proof (N.mod_lt x (2 ^ d) Hd) as Hxd.
-  assert (Hlow : x mod 2 ^ d * 2 ^ m + bv < 2 ^ (d + m)) by (rewrite N.pow_add_r; nia).
+  assert (Hlow : x mod 2 ^ d * 2 ^ m + bv < 2 ^ (d + m)).
+  { rewrite N.pow_add_r. apply N.lt_le_trans with ((x mod 2 ^ d + 1) * 2 ^ m); [clear - Hb; lia|].
+    apply N.mul_le_mono_r. clear - Hxd. lia. }
   rewrite E1. replace (((x / 2 ^ d) mod 2 ^ c * 2 ^ d + x mod 2 ^ d) * 2 ^ m + bv) with
     ((x mod 2 ^ d * 2 ^ m + bv) + (x / 2 ^ d) mod 2 ^ c * 2 ^ (d + m)) by (rewrite N.pow_add_r; lia).
   assert (Hdm : 2 ^ (d + m) <> 0) by (apply N.pow_nonzero; discriminate).
